@@ -302,7 +302,12 @@ def svd_truncated(
             # translate to total number of singular values to keep
             n_chi_all = ar.do("count_nonzero", cond, like=backend)
             # and then to an absolute cutoff value
-            abs_cutoff = sall[-n_chi_all]
+            if n_chi_all == 0:
+                # the cutoff exceeds the total weight: nothing is kept
+                # (n.b. sall[-0] would wrap around to the smallest value)
+                abs_cutoff = float("inf")
+            else:
+                abs_cutoff = sall[-n_chi_all]
 
         if 0 < max_bond < ar.size(sall):
             # also take into account a total maximum bond
